@@ -1169,6 +1169,10 @@ impl FileFragment {
         for data_file in &self.metadata.files {
             let last = -1;
             for field_id in &data_file.fields {
+                if *field_id == -2 {
+                    // tombstoned column (its data was rewritten into a newer data file)
+                    continue;
+                }
                 if *field_id <= last {
                     return Err(Error::corrupt_file(
                         self.dataset
